@@ -56,6 +56,15 @@ def handleKeys (toks : List String) (tbl : Table) : Option String :=
   | ["key.export", "ec-priv", crv, bits, x, y, d] => do
     let k : EcPriv := { pub := { crv := ← hexToStr crv, x := ← x.toNat?, y := ← y.toNat? }, d := ← d.toNat? }
     some (showRes ((exportEcPrivate k (← bits.toNat?)).map fun d => showJVal (.obj d)))
+  | ["key.export", "oct", raw] => do
+    some ("ok " ++ showJVal (.obj (exportOct (← hexToBytes raw))))
+  | ["key.export", "okp-pub", crv, x] => do
+    some ("ok " ++ showJVal (.obj (exportOkpPublic (← hexToStr crv) (← hexToBytes x))))
+  | ["key.export", "okp-priv", crv, x, d] => do
+    some ("ok " ++ showJVal (.obj (exportOkpPrivate (← hexToStr crv) (← hexToBytes x) (← hexToBytes d))))
+  | ["key.import", "oct", dict] => do
+    let d ← match ← readJVal dict with | .obj kvs => some kvs | _ => none
+    some (showRes ((importOct d).map bytesToHex))
   | ["key.import", kind, dict] => do
     let d ← match ← readJVal dict with | .obj kvs => some kvs | _ => none
     match kind with
